@@ -32,9 +32,12 @@ CONSTANTS
     RevertGuard,        \* TRUE: RevertTransaction reserves the target id while it runs
     MetaLogsCarryIk,    \* TRUE: metadata logs carry the idempotency key of their request
     CancelAbortsWait,   \* TRUE: a cancelled request stops waiting for the persistence of its log and reports an error
+    SeedTx,             \* TRUE: the ledger starts with transaction 0 (world -> A 3); FALSE: its history holds metadata entries only
     ReplayFromRequest,  \* TRUE: a request answered through its idempotency key builds its answer and its event from its own
                         \* kind and arguments (as coded: the public method does not compare the stored entry with the request);
                         \* FALSE: from the stored entry
+    LookupErrorIgnored, \* TRUE: a failing store lookup of the idempotency key is taken for "key unknown" and the request is executed
+    MaxReadFail,        \* number of failing store lookups of an idempotency key per behaviour
     MaxCancel,          \* number of request contexts cancelled per behaviour
     MaxCrash            \* number of crash/restart cycles explored
 
@@ -55,10 +58,11 @@ VARIABLES
     events,     \* sequence of published events
     gen,        \* commander generation (0 before the crash, 1 after restart)
     crashes,
+    rfail,      \* store lookups that failed so far
     cancelled   \* requests whose context has been cancelled by their caller
 
 vars == <<req, pc, loc, store, lastLog, lastTx, refs, rl, wl, lq, seqOwner, pending, inflight,
-          doneSet, resp, events, gen, crashes, cancelled>>
+          doneSet, resp, events, gen, crashes, rfail, cancelled>>
 
 \* "BE": account B in a second asset (the harness maps it to the same address, asset EUR)
 Accts == {"A", "B", "BE", "C", "M", "world"}
@@ -75,8 +79,10 @@ MkLog(id, kind, by, txid, target, tacct, mval, postings, ref, ik, od) ==
 P(s, d, a) == [src |-> s, dst |-> d, amt |-> a]
 
 \* the ledger before the requests: world -> A 3 (tx 0) and metadata M.payer = "A"
-InitStore == <<MkLog(0, "tx", "init", 0, -1, "", "", <<P("world", "A", 3)>>, "", "", FALSE),
-               MkLog(1, "set", "init", -1, -1, "M", "A", <<>>, "", "", FALSE)>>
+InitStore == IF SeedTx
+             THEN <<MkLog(0, "tx", "init", 0, -1, "", "", <<P("world", "A", 3)>>, "", "", FALSE),
+                    MkLog(1, "set", "init", -1, -1, "M", "A", <<>>, "", "", FALSE)>>
+             ELSE <<MkLog(0, "set", "init", -1, -1, "M", "A", <<>>, "", "", FALSE)>>
 
 \* ---------------------------------------------------------------- store reads
 Bal(a) == BalancesOf(store, Zero)[a]
@@ -123,7 +129,7 @@ Init ==
     /\ pending = <<>> /\ inflight = <<>> /\ doneSet = {}
     /\ resp = [p \in Procs |-> NoResp]
     /\ events = <<>>
-    /\ gen = 0 /\ crashes = 0 /\ cancelled = {}
+    /\ gen = 0 /\ crashes = 0 /\ rfail = 0 /\ cancelled = {}
 
 \* ---------------------------------------------------------------- lock manager (see Lock.tla)
 Compat(r, w, rlc, wlc) == r \cap wlc = {} /\ \A x \in w : rlc[x] = 0 /\ x \notin wlc
@@ -259,7 +265,11 @@ S_ReadRun(p) ==
         viaBal == req[p].kind = "create" /\ req[p].mode = "bal"
         src == loc[p].posts[1].src
         posts == IF viaBal THEN <<[loc[p].posts[1] EXCEPT !.amt = Bal(src)]>> ELSE loc[p].posts
-        covered == IF viaBal THEN Bal(src) >= 0 ELSE req[p].od \/ PostingsCovered(BalancesOf(store, Zero), loc[p].posts)
+        \* mode "wvar": @world reached through a variable has no overdraft allowance (the allowance is given to the literal at compile time)
+        worldBounded == req[p].kind = "create" /\ req[p].mode = "wvar"
+                        /\ \E i \in 1..Len(loc[p].posts) : loc[p].posts[i].src = "world" /\ loc[p].posts[i].amt > 0
+        covered == IF viaBal THEN Bal(src) >= 0
+                   ELSE ~worldBounded /\ (req[p].od \/ PostingsCovered(BalancesOf(store, Zero), loc[p].posts))
     IN  IF covered
         THEN /\ rl' = u.rl /\ wl' = u.wl /\ lq' = u.rest
              /\ loc' = [q \in Procs |-> IF q = p THEN [loc[p] EXCEPT !.holding = IF early THEN FALSE ELSE @, !.posts = posts]
@@ -412,7 +422,7 @@ AfterIk(p) ==
     ELSE S_MetaCheck(p)
 
 Step(p) ==
-    /\ UNCHANGED <<req, gen, crashes, cancelled>>
+    /\ UNCHANGED <<req, gen, crashes, rfail, cancelled>>
     /\ CASE pc[p] = "start"       -> /\ req[p].gen = gen
                                      /\ IF req[p].kind = "revert" THEN S_RevTake(p) ELSE EnterRun(p)
          [] pc[p] = "rev.taken"   -> S_RevRead(p)
@@ -445,7 +455,7 @@ Persist ==
     /\ store' = store \o inflight
     /\ doneSet' = doneSet \cup IdsOf(inflight)
     /\ inflight' = pending /\ pending' = <<>>
-    /\ UNCHANGED <<req, pc, loc, lastLog, lastTx, refs, rl, wl, lq, seqOwner, resp, events, gen, crashes, cancelled>>
+    /\ UNCHANGED <<req, pc, loc, lastLog, lastTx, refs, rl, wl, lq, seqOwner, resp, events, gen, crashes, rfail, cancelled>>
 
 Live(p) == pc[p] \notin {"start", "finished", "dead"}
 
@@ -466,16 +476,28 @@ Crash(applied) ==
     /\ refs' = {} /\ rl' = [a \in LockAccts |-> 0] /\ wl' = {} /\ lq' = <<>> /\ seqOwner' = "none"
     /\ pending' = <<>> /\ inflight' = <<>> /\ doneSet' = {}
     /\ gen' = 1 /\ crashes' = crashes + 1
-    /\ UNCHANGED <<req, events, cancelled>>
+    /\ UNCHANGED <<req, events, rfail, cancelled>>
 
 \* the caller of a request in flight cancels its context
 Cancel(p) ==
     /\ Live(p) /\ p \notin cancelled /\ Cardinality(cancelled) < MaxCancel
     /\ cancelled' = cancelled \cup {p}
     /\ UNCHANGED <<req, pc, loc, store, lastLog, lastTx, refs, rl, wl, lq, seqOwner, pending, inflight,
-                   doneSet, resp, events, gen, crashes>>
+                   doneSet, resp, events, gen, crashes, rfail>>
 
-Next == (\E p \in Procs : Step(p) \/ Cancel(p)) \/ Persist \/ Crash(TRUE) \/ Crash(FALSE)
+\* the store fails the lookup of p's idempotency key (ReadLogWithIdempotencyKey returns an error that is not
+\* "not found"): the request is refused - whether the key was used is unknown
+ReadFail(p) ==
+    /\ pc[p] = "ik.taken" /\ rfail < MaxReadFail
+    /\ rfail' = rfail + 1
+    /\ UNCHANGED <<req, gen, crashes, cancelled>>
+    /\ IF LookupErrorIgnored
+       THEN /\ loc' = loc /\ Goto(p, "ik.checked")
+            /\ UNCHANGED <<store, lastLog, lastTx, refs, rl, wl, lq, seqOwner, pending, inflight, doneSet, resp, events>>
+       ELSE /\ Fail(p, "read-failed")
+            /\ UNCHANGED <<store, lastLog, lastTx, pending, inflight, doneSet, events>>
+
+Next == (\E p \in Procs : Step(p) \/ Cancel(p) \/ ReadFail(p)) \/ Persist \/ Crash(TRUE) \/ Crash(FALSE)
 
 Spec == Init /\ [][Next]_vars
 
